@@ -100,6 +100,12 @@ impl<'a> Case<'a> {
                             "events before the I/O error are not a prefix of the fault-free run: call #{} {} vs fault-free {}",
                             j, show(before.get(j)), show(self.reference.get(j))
                         ))
+                    } else if last.pos < before.last().map_or(0, |o| o.pos) || last.pos > self.input.len() as u64 {
+                        // C03's clause under faults: reported positions never decrease and stay within the input
+                        Some(format!(
+                            "after the I/O error at refill #{} buffer_position() is {} (before the failing call: {}, input length {})",
+                            i, last.pos, before.last().map_or(0, |o| o.pos), self.input.len()
+                        ))
                     } else {
                         None
                     }
